@@ -39,6 +39,7 @@ LEVEL = "exploration"
 TECHNIQUE = ("deterministic simulation: real HTTP11ClientProtocol against scripted, byte-labelled server responses "
              "(h11-serialised and hand-built); seeded truncation point, segmentation, deliverBody timing, producer pause/resume")
 QUICK_RUNS = 60000
+TWIN_P = 0.08   # this share of the runs drives two independent instances of the scenario one after the other (detsim.runner._run_scenario)
 BATCH = 250
 RUN_WALL_LIMIT_S = 120   # runs take milliseconds; generous so that an overloaded host is not mistaken for a hang
 COMPONENTS = {"real": ["twisted.web._newclient.HTTP11ClientProtocol", "twisted.web._newclient.HTTPClientParser", "twisted.web._newclient.Response",
